@@ -44,6 +44,7 @@ class FnSpec:
         self.attrs = []
         self.contract = []     # raw lines
         self.injections = []   # (where, anchor, nth, text)
+        self.known = []        # (tag glob, finding id): generated obligations (rule L) that are expected-fail
 
 
 class Unit:
@@ -109,6 +110,9 @@ def parse_recipe(path, name):
                     item.opts[k] = v
             elif key == "@label":
                 fnspec.label = rest
+            elif key == "@known":
+                g_, f_ = rest.split()
+                fnspec.known.append((g_, f_))
             elif key == "@ret":
                 fnspec.ret = rest
             elif key == "@param":
